@@ -247,7 +247,9 @@ def check(prog, rep):
     shared.rule_patch_isolation(prog, rep, "R6")
     shared.rule_no_mutation_while_iterating(prog, rep, "R7", ["biomolecule.py::Biomolecule.set_termini", "biomolecule.py::Biomolecule.assign_termini",
                                                                "biomolecule.py::Biomolecule.__init__", "biomolecule.py::Biomolecule.update_bonds"])
-    shared.rule_ter_chain_count(prog, rep, "R8")
+    from . import c07
+    if not c07.ingestion_decided_on_models(prog, rep, "R8", only=("no chain identifiers",)):
+        shared.rule_ter_chain_count(prog, rep, "R8")  # shape-based fallback
 
 
 def check_guard(prog, r4):
